@@ -178,10 +178,10 @@ class BolfiPosterior:
             (self.threshold - mean) * 0.5 * grad_var / std
         factor = factor / var
         term = (self.threshold - mean) / std
-        pdf = ss.norm.pdf(term)
-        cdf = ss.norm.cdf(term)
+        # pdf / cdf in log space: both underflow to zero in the far lower tail
+        pdf_cdf_ratio = np.exp(ss.norm.logpdf(term) - ss.norm.logcdf(term))
 
-        grad[logi, :] = factor * pdf / cdf
+        grad[logi, :] = factor * pdf_cdf_ratio
 
         if ndim == 0 or (ndim == 1 and self.dim > 1):
             grad = grad[0]
